@@ -660,6 +660,12 @@ func (g *Gen) havocLval(sc *SpecCtx, m *SExpr) {
 	for _, t := range targets {
 		c := g.comps[t.Comp]
 		h := g.heapTerm(s, t.Comp)
+		if t.ElemBase != "" {
+			n := g.newHeapVersion(t.Comp)
+			g.assert(fmt.Sprintf("(forall ((r Int)) (! (=> %s (= (select %s r) (select %s r))) :pattern ((select %s r))))", t.outside("r"), n, h, n))
+			s.heap[t.Comp] = n
+			continue
+		}
 		if t.Idx != "" {
 			inner := strings.TrimSuffix(strings.TrimPrefix(c.Sort, "(Array Int "), ")")
 			fresh := g.freshConst("hv", inner)
@@ -701,6 +707,16 @@ type frameTarget struct {
 	Comp string
 	Ref  string
 	Idx  string
+	// ElemBase: every element of the array of structs with this base (s[*].F)
+	ElemBase string
+}
+
+// outside: the reference fr is not covered by the (whole-location) target t.
+func (t frameTarget) outside(fr string) string {
+	if t.ElemBase != "" {
+		return not(and(eq(sx("refkind", fr), "2"), eq(sx("elem-base", fr), t.ElemBase)))
+	}
+	return sx("distinct", fr, t.Ref)
 }
 
 // frameTargets evaluates the modifies clause in the entry state.
@@ -769,7 +785,7 @@ func (g *Gen) checkFrame(env map[string]*Val, pos token.Pos, site string) {
 		var idxConds []string
 		for _, t := range allowed[comp] {
 			if t.Idx == "" {
-				conds = append(conds, sx("distinct", fr, t.Ref))
+				conds = append(conds, t.outside(fr))
 			} else {
 				idxConds = append(idxConds, and(eq(fr, t.Ref)), t.Idx)
 			}
